@@ -77,8 +77,9 @@ PROPS = {
         "cone": EDIT_FNS, "proj": VIEW_PROJ,
     },
     "C08": {
-        "runs": runs([T("sgr", 3000), T("edit", 600)], [T("sgr", 40000), T("edit", 8000), T("general", 8000)]),
-        "cone": ["Sgr", "Print"] + EDIT_FNS + ["Su", "Sd", "Il", "Dl"], "proj": ["pen", "fn", "buf.view", "panic."],
+        "runs": runs([T("sgr", 3000), T("edit", 600), T("alt", 600)], [T("sgr", 40000), T("edit", 8000), T("general", 8000), T("alt", 8000)]),
+        "cone": ["Sgr", "Print", "Decset", "Decrst", "Ris", "Decstr"] + EDIT_FNS + ["Su", "Sd", "Il", "Dl", "Lf", "Nel", "Ri"],
+        "proj": ["pen", "fn", "buf.view", "panic."],
     },
     "C09": {
         "runs": runs([("text", "general", 4500, []), T("print", 900, Q)],
